@@ -1,4 +1,5 @@
 import RbV.Ref.BS
+import RbV.Model.LFMapping
 /-!
 # C05 — FM-index backward search returns exactly the pattern's occurrences
 
@@ -130,5 +131,69 @@ example : checkBS txt sa [1, 5] .absent = true := by decide
 example : checkBS txt sa [1, 2] .absent = false := by decide
 example : BSProp txt sa [4, 1] (.complete 6 7) := (checkBS_iff txt sa [4, 1] (by decide) _).mp (by decide)
 end examples
+
+/-! ## [B] mirror model of `backward_search` and the LF-mapping argument
+
+`BSModel.backwardSearch less occ n pat` (`RbV/Model/BackwardSearch.lean`) follows the Rust function line by line over
+abstract `less`/`occ`; `LF.lessRef`, `LF.occRef`, `LF.bwtOf` (`RbV/Model/LFMapping.lean`) are the values the index
+components hold for the BWT of `(t, sa)`.  `LF.Sorted t sa a` is the sortedness hypothesis, a conjunction of bounded
+(hence decidable) statements about `(t, sa, a)`: `sa` is a permutation of the positions, rows are ordered by first
+symbol, two rows starting with `a` are ordered like the rows of the following positions, and the text does not end
+in `a`.  Every suffix array in the sense of C03 (any consistent order of the sentinels) satisfies it for every
+non-sentinel symbol; nothing is assumed about the order among the sentinel rows. -/
+
+/-- **LF-mapping lemma**: on a sorted array, if row `x` starts with `a` and row `z` holds the next text position,
+then `x = less(a) + #{rows before z whose BWT symbol is a}` -/
+theorem lf_mapping (t sa : List Nat) (a x z : Nat) (hs : LF.Sorted t sa a) (hx : x < sa.length) (hz : z < sa.length)
+    (hxa : t.getD (sa.getD x 0) 0 = a) (hzx : sa.getD z 0 = sa.getD x 0 + 1) :
+    x = LF.lessRef (LF.bwtOf t sa) a + LF.occLt (LF.bwtOf t sa) z a :=
+  LF.lf_mapping hs x z hx hz hxa hzx
+
+/-- **interval refinement**: the rows whose suffix starts with `a·P` are
+`less a + occ(a, lo-1) … less a + occ(a, hi-1) - 1` when `lo … hi-1` are the rows whose suffix starts with `P` -/
+theorem lf_step (t sa : List Nat) (a : Nat) (hs : LF.Sorted t sa a) :
+    BSModel.LFStep t sa (LF.lessRef (LF.bwtOf t sa)) (LF.occRef (LF.bwtOf t sa)) a :=
+  LF.lfStep_of_sorted hs
+
+/-- loop-invariant part, for *any* `less`/`occ` that provide the LF step (last non-empty interval, matched length,
+completeness flag) -/
+theorem backward_search_correct_of_LF (t sa pat : List Nat) (less : Nat → Nat) (occ : Nat → Nat → Nat)
+    (hp : pat ≠ []) (hn : 0 < sa.length)
+    (hrange : ∀ row, row < sa.length → sa.getD row 0 ≤ t.length)
+    (hs : BSModel.Surj t sa) (hless : ∀ a ∈ pat, 1 ≤ less a) (hLF : ∀ a ∈ pat, BSModel.LFStep t sa less occ a) :
+    BSProp t sa pat (BSModel.backwardSearch less occ sa.length pat) :=
+  BSModel.backwardSearch_correct_of_LF t sa pat less occ hp hn hrange hs hless hLF
+
+/-- **`backward_search` is correct** for every text ending in a symbol smaller than all pattern symbols (one or
+many sentinels), every array sorted in the sense above, and every non-empty pattern: the mirror model's result
+satisfies the property statement -/
+theorem backward_search_correct (t sa pat : List Nat) (hp : pat ≠ []) (hn : 0 < t.length)
+    (hsent : ∀ a ∈ pat, t.getD (t.length - 1) 0 < a)
+    (hsorted : ∀ a ∈ pat, LF.Sorted t sa a) :
+    BSProp t sa pat
+      (BSModel.backwardSearch (LF.lessRef (LF.bwtOf t sa)) (LF.occRef (LF.bwtOf t sa)) sa.length pat) :=
+  LF.backwardSearch_correct t sa pat hp hn hsent hsorted
+
+/-- … hence accepted by the oracle: on a sorted index the checker and the mirror model agree -/
+theorem model_accepted (t sa pat : List Nat) (hp : pat ≠ []) (hn : 0 < t.length)
+    (hsent : ∀ a ∈ pat, t.getD (t.length - 1) 0 < a)
+    (hsorted : ∀ a ∈ pat, LF.Sorted t sa a) :
+    checkBS t sa pat
+      (BSModel.backwardSearch (LF.lessRef (LF.bwtOf t sa)) (LF.occRef (LF.bwtOf t sa)) sa.length pat) = true :=
+  (checkBS_iff t sa pat hp _).mpr (backward_search_correct t sa pat hp hn hsent hsorted)
+
+section model_examples
+/-- "GATTACA$" with $=0, A=1, C=2, G=3, T=4 and its suffix array -/
+private def txt' : List Nat := [3, 1, 4, 4, 1, 2, 1, 0]
+private def sa' : List Nat := [7, 6, 4, 1, 5, 0, 3, 2]
+-- the mirror model on the repo's test cases: GATTACA complete, GTACA partial (4), and an absent symbol
+example : BSModel.backwardSearch (LF.lessRef (LF.bwtOf txt' sa')) (LF.occRef (LF.bwtOf txt' sa')) 8 [3, 1, 4, 4, 1, 2, 1]
+    = .complete 5 6 := by decide
+example : BSModel.backwardSearch (LF.lessRef (LF.bwtOf txt' sa')) (LF.occRef (LF.bwtOf txt' sa')) 8 [3, 4, 1, 2, 1]
+    = .part 6 7 4 := by decide
+example : BSModel.backwardSearch (LF.lessRef (LF.bwtOf txt' sa')) (LF.occRef (LF.bwtOf txt' sa')) 8 [1, 5]
+    = .absent := by decide
+example : LF.bwtOf txt' sa' = [1, 2, 4, 3, 1, 0, 4, 1] := by decide
+end model_examples
 
 end RbV.Thm.C05
